@@ -101,8 +101,15 @@ def streams(tier, rng):
             ins.append(('I', long_a[cut:]))
             if len(B) > 60:
                 B = b'*IDN?\n'
+        flushed_a = False
+        if capb == 256 and rng.random() < 0.12:
+            flushed_a = True
+            # the last message of A arrives without terminator -- also with an unfinished block or string -- and is executed by a
+            # zero-length (flush) call: whatever it did, nothing of it may be left in the buffer for B
+            ins.append(('I', rng.choice([b'', b'TEST:A?;', b'II 2;']) + rng.choice([b'TXT #15ab', b'TXT #15', b'TXT #1', b'TXT #', b'TXT "abc', b"TXT 'ab", b'II 2', b'LEV', b'TEST:A?', b'FOO', b'II 1,'])))
+            ins.append(('I', b''))
         Bnt = B.rstrip(b'\r\n')
-        if capb == 256 and Bnt and rng.random() < 0.25:
+        if capb == 256 and Bnt and not flushed_a and rng.random() < 0.25:
             # B arrives unterminated in the same input call as the end of A and is executed by a zero-length (flush) call
             ins2 = ins[:-1] + [('I', ins[-1][1] + Bnt)]
             ab = gen.scenario(capb, 250, table, ins2 + [('I', b'')])
@@ -110,7 +117,7 @@ def streams(tier, rng):
             pairs.append((len(cases), len(ins2), 1, [x for _, x in ins], Bnt + b' <flush>'))
             cases += [ab, b]
             continue
-        if capb == 256 and len(ins[-1][1]) + len(B) < 240 and rng.random() < 0.25:
+        if capb == 256 and not flushed_a and len(ins[-1][1]) + len(B) < 240 and rng.random() < 0.25:
             # B arrives complete in the same input call as the last message of A: what that call does must be what it does for A
             # alone followed by what B does alone
             ins2 = ins[:-1] + [('I', ins[-1][1] + B)]
